@@ -28,14 +28,14 @@ func bin(n int, seed byte) []byte {
 
 func txShapes() map[string][][]byte {
 	return map[string][][]byte{
-		"nil":          nil,
-		"[]":           {},
-		"[[]]":         {{}},
-		"[nil]":        {nil},
-		"[bin]":        {{0x00, 0xff, 0x7f, 0x80, '"', '\\', '\n'}},
-		"[bin,bin]":    {bin(5, 1), bin(300, 2)},
-		"[0xff x 33]":  {bytes.Repeat([]byte{0xff}, 33)},
-		"[64KB]":       {bin(65536, 3)},
+		"nil":           nil,
+		"[]":            {},
+		"[[]]":          {{}},
+		"[nil]":         {nil},
+		"[bin]":         {{0x00, 0xff, 0x7f, 0x80, '"', '\\', '\n'}},
+		"[bin,bin]":     {bin(5, 1), bin(300, 2)},
+		"[0xff x 33]":   {bytes.Repeat([]byte{0xff}, 33)},
+		"[64KB]":        {bin(65536, 3)},
 		"[utf8-broken]": {{0xc3, 0x28, 0xe2, 0x82}},
 	}
 }
@@ -47,8 +47,14 @@ func itxShapes() map[string][]hg.InternalTransaction {
 	for i := 3; i < 8; i++ {
 		five = append(five, sim.JoinTx(i))
 	}
+	// the same peer key under other spellings (the key is hashed and signed verbatim)
+	lower := hg.NewInternalTransactionJoin(*peers.NewPeer(strings.ToLower(sim.PubHex(6)), "addr6", "n6"))
+	lower.Sign(sim.Key(6))
+	mixed := hg.NewInternalTransactionJoin(*peers.NewPeer("0X"+strings.ToLower(sim.PubHex(7)[2:]), "addr7", "n7"))
+	mixed.Sign(sim.Key(7))
 	return map[string][]hg.InternalTransaction{
 		"nil": nil, "[]": {}, "[join]": {sim.JoinTx(5)}, "[join,leave]": {sim.JoinTx(5), leave}, "5": five,
+		"[join lower-case 0x key]": {lower}, "[join 0X + lower-case digits]": {mixed},
 	}
 }
 
@@ -342,10 +348,15 @@ func init() {
 		bstore.Close()
 		// frames --------------------------------------------------------------
 		frameEvals := 0
+		lowerKeys := false
 		mkFrame := func(npeers, depth int, order []int) *hg.Frame {
 			pl := []*peers.Peer{}
 			for i := 0; i < npeers; i++ {
-				pl = append(pl, peers.NewPeer(sim.PubHex(i), fmt.Sprintf("addr%d", i), fmt.Sprintf("n%d", i)))
+				k := sim.PubHex(i)
+				if lowerKeys && i%2 == 0 {
+					k = strings.ToLower(k)
+				}
+				pl = append(pl, peers.NewPeer(k, fmt.Sprintf("addr%d", i), fmt.Sprintf("n%d", i)))
 			}
 			f := &hg.Frame{Round: 5, Peers: pl, Roots: map[string]*hg.Root{}, Events: []*hg.FrameEvent{}, PeerSets: map[int][]*peers.Peer{}, Timestamp: 99}
 			// maps filled in the given order
@@ -385,43 +396,46 @@ func init() {
 		if th {
 			perms = allPerms(4)
 		}
-		for np := 1; np <= 4; np++ {
-			for _, depth := range []int{0, 1, 10, 11} {
-				var h0 []byte
-				for pi, perm := range perms {
-					f := mkFrame(np, depth, perm)
-					fh, err := f.Hash()
-					frameEvals++
-					distinct[fmt.Sprintf("frame|%d|%d", np, depth)] = true
-					if err != nil {
-						viol("frame-hash-error", err.Error(), nil)
-						continue
-					}
-					if pi == 0 {
-						h0 = fh
-					} else if !bytes.Equal(fh, h0) {
-						viol("frame-hash-depends-on-fill-order", fmt.Sprintf("frame with %d peers, root depth %d: hash differs when the maps are filled in order %v instead of %v", np, depth, perm, perms[0]), map[string]interface{}{"peers": np, "depth": depth, "order": perm})
-					}
-					// through Marshal/Unmarshal and the FastForwardResponse JSON
-					raw, _ := f.Marshal()
-					nf := new(hg.Frame)
-					if err := nf.Unmarshal(raw); err != nil {
-						viol("frame-unmarshal", err.Error(), nil)
-					} else if nh, _ := nf.Hash(); !bytes.Equal(nh, fh) {
-						viol("frame-hash-changed:Marshal/Unmarshal", fmt.Sprintf("frame with %d peers, root depth %d: hash changed through Marshal/Unmarshal", np, depth), map[string]interface{}{"peers": np, "depth": depth})
-					}
-					ff := net.FastForwardResponse{Frame: *f}
-					raw, _ = json.Marshal(&ff)
-					var ff2 net.FastForwardResponse
-					if err := json.Unmarshal(raw, &ff2); err != nil {
-						viol("frame-ff-json", err.Error(), nil)
-					} else if nh, _ := ff2.Frame.Hash(); !bytes.Equal(nh, fh) {
-						viol("frame-hash-changed:FastForwardResponse JSON", fmt.Sprintf("frame with %d peers, root depth %d: hash changed through the FastForwardResponse JSON encoding", np, depth), map[string]interface{}{"peers": np, "depth": depth})
-					}
-					for _, r := range ff2.Frame.Roots {
-						for _, fe := range r.Events {
-							if ok, _ := fe.Core.Verify(); !ok {
-								viol("frame-event-signature-invalid", "a root event no longer verifies after the FastForwardResponse JSON encoding", nil)
+		for _, lk := range []bool{false, true} {
+			lowerKeys = lk
+			for np := 1; np <= 4; np++ {
+				for _, depth := range []int{0, 1, 10, 11} {
+					var h0 []byte
+					for pi, perm := range perms {
+						f := mkFrame(np, depth, perm)
+						fh, err := f.Hash()
+						frameEvals++
+						distinct[fmt.Sprintf("frame|%d|%d", np, depth)] = true
+						if err != nil {
+							viol("frame-hash-error", err.Error(), nil)
+							continue
+						}
+						if pi == 0 {
+							h0 = fh
+						} else if !bytes.Equal(fh, h0) {
+							viol("frame-hash-depends-on-fill-order", fmt.Sprintf("frame with %d peers, root depth %d: hash differs when the maps are filled in order %v instead of %v", np, depth, perm, perms[0]), map[string]interface{}{"peers": np, "depth": depth, "order": perm})
+						}
+						// through Marshal/Unmarshal and the FastForwardResponse JSON
+						raw, _ := f.Marshal()
+						nf := new(hg.Frame)
+						if err := nf.Unmarshal(raw); err != nil {
+							viol("frame-unmarshal", err.Error(), nil)
+						} else if nh, _ := nf.Hash(); !bytes.Equal(nh, fh) {
+							viol("frame-hash-changed:Marshal/Unmarshal", fmt.Sprintf("frame with %d peers, root depth %d: hash changed through Marshal/Unmarshal", np, depth), map[string]interface{}{"peers": np, "depth": depth})
+						}
+						ff := net.FastForwardResponse{Frame: *f}
+						raw, _ = json.Marshal(&ff)
+						var ff2 net.FastForwardResponse
+						if err := json.Unmarshal(raw, &ff2); err != nil {
+							viol("frame-ff-json", err.Error(), nil)
+						} else if nh, _ := ff2.Frame.Hash(); !bytes.Equal(nh, fh) {
+							viol("frame-hash-changed:FastForwardResponse JSON", fmt.Sprintf("frame with %d peers, root depth %d: hash changed through the FastForwardResponse JSON encoding", np, depth), map[string]interface{}{"peers": np, "depth": depth})
+						}
+						for _, r := range ff2.Frame.Roots {
+							for _, fe := range r.Events {
+								if ok, _ := fe.Core.Verify(); !ok {
+									viol("frame-event-signature-invalid", "a root event no longer verifies after the FastForwardResponse JSON encoding", nil)
+								}
 							}
 						}
 					}
@@ -436,7 +450,7 @@ func init() {
 		cov["frames"] = frameEvals
 		cov["exhaustive"] = true
 		cov["samples"] = samples
-		cov["rule"] = "full cross product of the shape grammar: events {transactions: " + strings.Join(names(txs), ", ") + "} x {internal transactions: " + strings.Join(names(itxs), ", ") + "} x {block signatures: nil, [], 1, 5} x {parents: none, self, self+other, other only} x {index, timestamp in 0,1,-1,Max} (quick: half of the index x timestamp grid), each through ToWire -> transport JSON -> ReadWireInfo on a hashgraph that knows the parents, MarshalDB/UnmarshalDB, and a real Badger write/close/reopen/read; blocks (same payload grammars x 0..5 signatures x state hash nil/empty/32 bytes/binary x 0..2 receipts) through Marshal/Unmarshal, the FastForwardResponse JSON and Badger; frames (1..4 peers, root depth 0,1,10,11, peer-set and root maps filled in several insertion orders) through Marshal/Unmarshal and the FastForwardResponse JSON. Oracle: identical Hex()/Hash(), Verify() still true, payload bytes identical, wire ids identical; frame hash independent of map fill order. distinct_nontrivial = distinct (payload shape, itx shape, signature shape, parents) classes"
+		cov["rule"] = "full cross product of the shape grammar: events {transactions: " + strings.Join(names(txs), ", ") + "} x {internal transactions: " + strings.Join(names(itxs), ", ") + "} x {block signatures: nil, [], 1, 5} x {parents: none, self, self+other, other only} x {index, timestamp in 0,1,-1,Max} (quick: half of the index x timestamp grid), each through ToWire -> transport JSON -> ReadWireInfo on a hashgraph that knows the parents, MarshalDB/UnmarshalDB, and a real Badger write/close/reopen/read; blocks (same payload grammars x 0..5 signatures x state hash nil/empty/32 bytes/binary x 0..2 receipts) through Marshal/Unmarshal, the FastForwardResponse JSON and Badger; frames (1..4 peers with upper-case and lower-case key spellings, root depth 0,1,10,11, peer-set and root maps filled in several insertion orders) through Marshal/Unmarshal and the FastForwardResponse JSON. Oracle: identical Hex()/Hash(), Verify() still true, payload bytes identical, wire ids identical; frame hash independent of map fill order. distinct_nontrivial = distinct (payload shape, itx shape, signature shape, parents) classes"
 		return rep.Finish()
 	}
 }
